@@ -395,4 +395,13 @@ def mirror_pairing(repo: Repo) -> RuleRun:
 
 mirror_pairing.rule_id = "C11.MIRROR-PAIRING"
 
-RULES = [quad_map_rule, chop_coverage, chop_role, radial_convention, chain_source, mirror_pairing]
+def trig_domain(repo: Repo) -> RuleRun:
+    """Merged spline sketches compare the normals of their quarters with functions.angle_between: for equal normals in a general orientation an unclipped cosine gives NaN and the sketch cannot be built."""
+    from ..domain import inverse_trig_rule
+
+    return inverse_trig_rule(repo, PROP, "C11.TRIG-DOMAIN", ('util.functions',), floor=2)
+
+
+trig_domain.rule_id = "C11.TRIG-DOMAIN"
+
+RULES = [quad_map_rule, chop_coverage, chop_role, radial_convention, chain_source, mirror_pairing, trig_domain]
